@@ -174,6 +174,76 @@ fn judge(in_range: bool, strict_in_range: bool, r: Option<bool>, out: &mut Out, 
     }
 }
 
+/// "Refused" means not applied: after a refused `set_max_chunk_size` the same serializer and the
+/// same deserializer go on working at the size that was in force before (the default, or an
+/// accepted size set earlier).
+fn refused_leaves_codec_working(refused: u64, out: &mut Out, what: &Value) {
+    for before in [None, Some(4096u32), Some(5u32)] {
+        let r = lib_call(out, "codec after a refused chunk size", || what.clone(), || -> Result<(), String> {
+            let size_in_force = before.unwrap_or(128) as usize;
+            let msgs: Vec<Msg> = [300usize, 3, 0, 2 * size_in_force + 1]
+                .iter()
+                .enumerate()
+                .map(|(i, l)| Msg { type_id: 9, msid: 1, ts: 40 * i as u32, data: (0..*l).map(|x| (x * 13 + i) as u8).collect() })
+                .collect();
+            // serializer side
+            if refused <= u32::MAX as u64 {
+                let mut ser = ChunkSerializer::new();
+                let mut bytes = Vec::new();
+                let mut sent = Vec::new();
+                let mut scs = Vec::new();
+                if let Some(b) = before {
+                    bytes.extend(ser.set_max_chunk_size(b, RtmpTimestamp::new(0)).map_err(|e| format!("{:?}", e))?.bytes);
+                    sent.push(Msg { type_id: 1, msid: 0, ts: 0, data: b.to_be_bytes().to_vec() });
+                    scs.push(Some(b));
+                }
+                match ser.set_max_chunk_size(refused as u32, RtmpTimestamp::new(0)) {
+                    Ok(_) => return Ok(()), // accepted: judged elsewhere
+                    Err(_) => {}
+                }
+                for m in msgs.iter() {
+                    bytes.extend(ser.serialize(&crate::adapt::to_payload(m), false, false).map_err(|e| format!("serialize after the refusal: {:?}", e))?.bytes);
+                    sent.push(m.clone());
+                    scs.push(None);
+                }
+                let got = lib_decode_partitioned(&bytes, &[bytes.len()], &scs).map_err(|e| format!("serializer after a refused size: {}", e.0))?;
+                if got != sent {
+                    return Err("serializer after a refused size: round trip differs".to_string());
+                }
+            }
+            // deserializer side
+            if refused <= usize::MAX as u64 {
+                let mut d = ChunkDeserializer::new();
+                if let Some(b) = before {
+                    d.set_max_chunk_size(b as usize).map_err(|e| format!("{:?}", e))?;
+                }
+                if d.set_max_chunk_size(refused as usize).is_ok() {
+                    return Ok(());
+                }
+                let mut enc = crate::refs::chunk::Encoder::new();
+                enc.chunk_size = size_in_force;
+                let mut got = Vec::new();
+                for m in msgs.iter() {
+                    let bytes = enc.encode_simple(m, 4);
+                    crate::adapt::lib_feed(&mut d, &bytes, &mut got, |_, _| {}).map_err(|e| format!("deserializer after a refused size: {}", e))?;
+                }
+                if got != msgs {
+                    return Err("deserializer after a refused size: decoded messages differ".to_string());
+                }
+            }
+            Ok(())
+        });
+        match r {
+            Some(Ok(())) => out.count("codec_still_working_after_a_refused_value", 1),
+            Some(Err(e)) => {
+                out.violation("refused-value-leaves-codec-not-working", json!({"error": e, "case": what, "size_in_force_before": before.unwrap_or(128)}));
+                return;
+            }
+            None => return,
+        }
+    }
+}
+
 fn codec_round_trip(size: u32, out: &mut Out, what: &Value) -> bool {
     // a C01-style round trip at this chunk size
     let cap = 70_000usize;
@@ -328,6 +398,7 @@ fn run(case: &Case, rng: &mut Rng, out: &mut Out) {
                     out.violation("out-of-range-value-accepted", what.clone());
                 } else {
                     out.count("out_of_range_value_refused", 1);
+                    refused_leaves_codec_working(*v as u64, out, &what);
                 }
             }
         }
@@ -398,6 +469,7 @@ fn run(case: &Case, rng: &mut Rng, out: &mut Out) {
                     out.violation("out-of-range-value-accepted", what.clone());
                 } else {
                     out.count("out_of_range_value_refused", 1);
+                    refused_leaves_codec_working(*v, out, &what);
                 }
             }
         }
@@ -607,7 +679,7 @@ impl Check for C19 {
         run(&case, rng, out);
     }
     fn rule(&self) -> String {
-        "one call class x value per case, each in a supervised worker (CPU-time watchdog 30 s per case, allocator ceiling): chunk size {0,1,2,3,127,128,129,65536,2^24-1,2^24,2^31-2,2^31-1,2^31,2^31+1,2^32-2,2^32-1, boundary-biased random} into ChunkSerializer::set_max_chunk_size, ChunkDeserializer::set_max_chunk_size (also usize values beyond u32), ServerSessionConfig.chunk_size, ClientSessionConfig.chunk_size, and announced by the peer to a server and a client session (as the first message completed in an input call, or after another one); window/bandwidth/buffer length {0,1,2,100,2^31-1,2^31,2^32-2,2^32-1, random}; payload lengths {0,16777214,16777215,16777216,16777217,20M,32M} into serialize and through both sessions; AMF0 string and property-name lengths {0,1,65534..65537,70000}; fms_version/flash_version/tc_url/app/stream-key strings of those lengths. One case in twelve applies accepted chunk sizes through in-band SetChunkSize messages placed between the chunks of messages in flight on other chunk streams (the C16 history). Out-of-range must give Err (at the call or at first use); every accepted value is followed by a codec round trip or a connect+publish|play scenario of 4-6 items that must complete exactly. distinct = distinct (call class, value).".to_string()
+        "one call class x value per case, each in a supervised worker (CPU-time watchdog 30 s per case, allocator ceiling): chunk size {0,1,2,3,127,128,129,65536,2^24-1,2^24,2^31-2,2^31-1,2^31,2^31+1,2^32-2,2^32-1, boundary-biased random} into ChunkSerializer::set_max_chunk_size, ChunkDeserializer::set_max_chunk_size (also usize values beyond u32), ServerSessionConfig.chunk_size, ClientSessionConfig.chunk_size, and announced by the peer to a server and a client session (as the first message completed in an input call, or after another one); window/bandwidth/buffer length {0,1,2,100,2^31-1,2^31,2^32-2,2^32-1, random}; payload lengths {0,16777214,16777215,16777216,16777217,20M,32M} into serialize and through both sessions; AMF0 string and property-name lengths {0,1,65534..65537,70000}; fms_version/flash_version/tc_url/app/stream-key strings of those lengths. One case in twelve applies accepted chunk sizes through in-band SetChunkSize messages placed between the chunks of messages in flight on other chunk streams (the C16 history). Out-of-range must give Err (at the call or at first use), and after a refused set_max_chunk_size the same serializer and deserializer must go on working at the size in force before (default, 4096 or 5); every accepted value is followed by a codec round trip or a connect+publish|play scenario of 4-6 items that must complete exactly. distinct = distinct (call class, value).".to_string()
     }
     fn assumptions(&self) -> Vec<String> {
         vec![
